@@ -50,28 +50,42 @@ class UserFunction(Family):
     differential = False
 
     def configs(self, tier):
-        return [{"m": m, "n": n} for m in (2, 3, 4) for n in (2, 3)]
+        return [{"m": m, "n": n, "kind": k} for m in (2, 3, 4) for n in (2, 3) for k in ("scalar-only", "constant", "affine-vectorised")]
 
-    def run(self, ctx, inst, m, n):
+    def run(self, ctx, inst, m, n, kind):
+        import math
         from traffic_weaver import rfa
         x, y, X, ys = inputs(ctx, m, None)
         table = {}
+        c0, c1 = ctx.real("c0"), ctx.real("c1")
 
         def supplier(xx, yy):
-            def f(q):
+            if kind == "constant":
+                return lambda q: c0                      # x-independent (e.g. "the mean level"): accepts anything, returns a scalar
+            if kind == "affine-vectorised":
+                return lambda q: c0 + c1 * q             # works on scalars and arrays alike
+
+            def f(q):                                    # scalar-only: uninterpreted, a fresh real per abscissa
+                if isinstance(q, np.ndarray) and q.ndim > 0:
+                    raise TypeError("only length-1 arrays can be converted to Python scalars")
                 if ctx.symbolic:
                     k = Sym.lift(q).key()
                     if k not in table:
                         table[k] = ctx.fresh("f")
                     return table[k]
-                return float(np.sin(q))
+                return math.sin(q)
             return f
 
         xs, zs = rfa.FunctionRFA(x, y, n, sampling_function_supplier=supplier).rfa()
-        ctx.claim("type-xs-ndarray", isinstance(xs, np.ndarray))
-        ctx.claim("type-ys-ndarray", isinstance(zs, np.ndarray))
-        ctx.claim("length", len(xs) == (m - 1) * n + 1 and len(zs) == (m - 1) * n + 1)
-        ctx.claim("one-dimensional", np.ndim(xs) == 1 and np.ndim(zs) == 1)
+        N = (m - 1) * n + 1
+        ctx.claim("type-xs-ndarray", isinstance(xs, np.ndarray), {"kind": kind})
+        ctx.claim("type-ys-ndarray", isinstance(zs, np.ndarray), {"kind": kind})
+        ctx.claim("one-dimensional", np.ndim(xs) == 1 and np.ndim(zs) == 1, {"kind": kind, "ndim": (np.ndim(xs), np.ndim(zs))})
+        ctx.claim("length", np.ndim(xs) == 1 and np.ndim(zs) == 1 and len(xs) == N and len(zs) == N, {"kind": kind})
+        if np.ndim(zs) == 1 and len(zs) == N and np.ndim(xs) == 1 and len(xs) == N and kind != "scalar-only":
+            for i in range(N):
+                exp = c0 if kind == "constant" else c0 + c1 * xs[i]
+                ctx.claim("value=function(abscissa)", ctx.eq(zs[i], exp), {"i": i, "kind": kind})
 
 
 class RejectSmallN(Family):
